@@ -64,7 +64,16 @@ def _hostile_strings(ctx):
 
 def _hostile_objects():
     return [None, True, False, 1.0, 1.5, float("nan"), b"1/2/3", b"\x01\x02", (1, 2, 3), [1], {},
-            -1, 65536, 2**31, -(2**63), 10**30, object(), 1 + 0j]
+            -1, 65536, 2**31, -(2**63), 10**30, 10**4299, 10**4300, -(10**4300), 10**5000, 2**20000, -(2**20000), object(), 1 + 0j]
+
+
+def _show(obj):
+    """Witness form of an input; huge ints cannot be converted to decimal text."""
+    if isinstance(obj, int) and not isinstance(obj, bool) and obj.bit_length() > 256:
+        return f"<int of {obj.bit_length()} bits, sign {'-' if obj < 0 else '+'}>"
+    if isinstance(obj, str):
+        return obj if len(obj) < 200 else obj[:60] + f"...<{len(obj)} chars>"
+    return repr(obj)[:200]
 
 
 def _judge_text(ctx, cls, text, name):
@@ -79,9 +88,9 @@ def _judge_text(ctx, cls, text, name):
     except BaseException as exc:  # noqa: BLE001
         ctx.violation(
             f"{name}-parse-raises-{type(exc).__name__}",
-            {"cls": name, "input": text if isinstance(text, (str, int)) and len(str(text)) < 200 else repr(text)[:200],
+            {"cls": name, "input": _show(text),
              "input_len": len(text) if isinstance(text, str) else None, "exception": repr(exc)[:200]},
-            f"{name}({str(text)[:40]!r}) raised {type(exc).__name__} instead of CouldNotParseAddress",
+            f"{name}({_show(text)[:60]}) raised {type(exc).__name__} instead of CouldNotParseAddress",
         )
         return None
     ctx.count("accepted_hostile")
@@ -99,8 +108,8 @@ def _judge_text(ctx, cls, text, name):
     if not ok:
         ctx.violation(
             f"{name}-accepted-but-not-self-consistent",
-            {"cls": name, "input": repr(text)[:200], "raw": repr(raw)[:80]},
-            f"{name}({str(text)[:40]!r}) was accepted but does not render/re-parse to itself",
+            {"cls": name, "input": _show(text), "raw": _show(raw)[:80]},
+            f"{name}({_show(text)[:60]}) was accepted but does not render/re-parse to itself",
         )
     return a
 
@@ -118,7 +127,7 @@ def _shape(text):
 def run(ctx):
     ctx.rule = ("exhaustive raw 0..65535 x {IA,GA} x {LONG,SHORT,FREE}: str->parse and to_knx->from_knx; hostile strings/objects "
                 "classified by (class, outcome, category-shape of the text); distinct = distinct shapes")
-    ctx.require("roundtrips", "rejected", "accepted_hostile")
+    ctx.require("roundtrips", "rejected", "accepted_hostile", "from_knx_rejected", "from_knx_accepted")
     saved = GroupAddress.address_format
     try:
         # exhaustive part
@@ -190,5 +199,22 @@ def run(ctx):
         for obj in _hostile_objects():
             for cls, name in ((GroupAddress, "GA"), (IndividualAddress, "IA"), (InternalGroupAddress, "IGA")):
                 _judge_text(ctx, cls, obj, name)
+        # wire form: from_knx of any octet string is either an address that round-trips or an address parse error
+        for n in (0, 1, 3, 4, 8, 255, 1785, 1786, 1787, 1800, 4000, 9000):
+            for fill in (b"\x00", b"\xff", b"\x01"):
+                for cls, name in ((GroupAddress, "GA"), (IndividualAddress, "IA")):
+                    ctx.ev()
+                    raw = fill * n
+                    try:
+                        a = cls.from_knx(raw)
+                    except CouldNotParseAddress:
+                        ctx.count("from_knx_rejected")
+                    except BaseException as exc:  # noqa: BLE001
+                        ctx.violation(f"{name}-from_knx-raises-{type(exc).__name__}", {"cls": name, "octets": n, "fill": fill.hex(), "exception": repr(exc)[:200]},
+                                      f"{name}.from_knx({n} octets of {fill.hex()}) raised {type(exc).__name__} instead of CouldNotParseAddress")
+                    else:
+                        ctx.count("from_knx_accepted")
+                        if not (0 <= a.raw <= 65535 and cls.from_knx(a.to_knx()) == a):
+                            ctx.violation(f"{name}-from_knx-accepted-but-not-self-consistent", {"cls": name, "octets": n, "fill": fill.hex()}, f"{name}.from_knx accepted {n} octets but the address does not round-trip")
     finally:
         GroupAddress.address_format = saved
